@@ -159,10 +159,15 @@ func handleZADD(params internal.HandlerFuncParams) ([]byte, error) {
 		return []byte(fmt.Sprintf(":%d\r\n", count)), nil
 	}
 
-	// Key does not exist.
-	set := NewSortedSet(members)
-	if err = params.SetValues(params.Context, map[string]interface{}{key: set}); err != nil {
+	// Key does not exist: apply the members to an empty sorted set so that the flags are honoured.
+	set := NewSortedSet([]MemberParam{})
+	if _, err = set.AddOrUpdate(members, updatePolicy, comparison, changed, incr); err != nil {
 		return nil, err
+	}
+	if set.Cardinality() > 0 {
+		if err = params.SetValues(params.Context, map[string]interface{}{key: set}); err != nil {
+			return nil, err
+		}
 	}
 
 	return []byte(fmt.Sprintf(":%d\r\n", set.Cardinality())), nil
